@@ -218,6 +218,7 @@ func (ex *Exec) evalInv(st *State, e *Env, lp *Loop, cl *Clause) Term {
 	if lp.Range != nil {
 		if it := st.iters[lp.Range]; it != nil {
 			st.ghost["$visited"] = Term{it.Visited, SBool}
+			st.ghost["$itercount"] = it.Count
 			e.ghost = st.ghost
 		}
 	}
@@ -398,6 +399,8 @@ func (ex *Exec) havocLoop(st *State, lp *Loop) {
 	if lp.Range != nil {
 		if it := st.iters[lp.Range]; it != nil {
 			it.Visited = st.sc.freshFun("visited", []Sort{it.KSort}, SBool)
+			it.Count = st.sc.fresh("itercount", SInt)
+			st.sc.assert(le(intLit(0), it.Count))
 		}
 	}
 }
